@@ -112,18 +112,20 @@ func (v *Version) inc() error {
 // opVersionToSpan takes a possibly empty operator and a version and returns
 // the span represented by applying the operator to the version.
 func opVersionToSpan(typ tokType, op string, lo *Version) (span, error) {
+	// A prerelease with <3 numbers is meaningless, except Cargo accepts
+	// them in a constraint specification. Since opVersionToSpan means
+	// we are in a constraint, we can accept it.
+	// This has to be checked before the tags of a wildcard version are
+	// dropped: "3.x-next" is no more a range than "3-next" is.
+	if lo.sys != Cargo && len(lo.num) < 3 && len(lo.pre) > 0 {
+		return span{}, fmt.Errorf("prerelease requires 3 numbers: %#q", lo.str)
+	}
 	// If the version has a wildcard, any prerelease info is irrelevant, so
 	// drop it. NuGet wildcard constraints exclude pre-releases unless
 	// explicitly specified.
 	if lo.IsWildcard() && lo.sys != NuGet {
 		lo.clearPre()
 		lo.isPrerelease = false // The flag, not the tags, is what span.contains looks at.
-	}
-	// A prerelease with <3 numbers is meaningless, except Cargo accepts
-	// them in a constraint specification. Since opVersionToSpan means
-	// we are in a constraint, we can accept it.
-	if lo.sys != Cargo && len(lo.num) < 3 && len(lo.pre) > 0 {
-		return span{}, fmt.Errorf("prerelease requires 3 numbers: %#q", lo.str)
 	}
 	// Avoid calling copy unless needed.
 	if (typ == tokEmpty || typ == tokEqual) && len(lo.num) >= 3 && lo.allNumbers() {
